@@ -36,6 +36,32 @@ def ops_on(a, b, B):
     }
 
 
+def ops_mixed(m, a, b, B):
+    """the same impossible pair met through a Level (whose reference is in the other group's unit)
+    and through a Measurement: comparisons report inequality or TypeError, arithmetic and level()
+    raise ConversionNotFound"""
+    lu = m.Decibel[1 * B]
+    level = 3 * lu
+    meas = m.approximately(b, 0.5)
+    return {
+        "eq:q-level": _record(lambda: a == level),
+        "eq:level-q": _record(lambda: level == a),
+        "ne:q-level": _record(lambda: a != level),
+        "ne:level-q": _record(lambda: level != a),
+        "eq:q-meas": _record(lambda: a == meas),
+        "eq:meas-q": _record(lambda: meas == a),
+        "lt:q-meas": _record(lambda: a < meas),
+        "lt:meas-q": _record(lambda: meas < a),
+        "le:meas-q": _record(lambda: meas <= a),
+        "gt:meas-q": _record(lambda: meas > a),
+        "add:q-meas": _record(lambda: (a + meas).measurand),
+        "add:meas-q": _record(lambda: (meas + a).measurand),
+        "sub:meas-q": _record(lambda: (meas - a).measurand),
+        "in_unit:level": _record(lambda: a.level(lu).quantify()),
+        "in_unit:level-quantified": _record(lambda: level.quantify().in_unit(a.unit)),
+    }
+
+
 def execute(case):
     """-> {'invalid': True} | {'pairs': [{'shape':..., 'determined': bool, 'ops': {...}}, ...]}"""
     g = case.get("g")
@@ -123,6 +149,9 @@ def execute(case):
         A3 = a3 / t if compound else a3
         pairs += [{"shape": "unlinked", "determined": False, "label": f"{A3} -> {B}", "ops": ops_on(m1 * A3, m2 * B, B)},
                   {"shape": "unlinked", "determined": False, "label": f"{B} -> {A3}", "ops": ops_on(m2 * B, m1 * A3, A3)}]
+        if case.get("mixed"):
+            pairs += [{"shape": "unlinked", "determined": False, "label": f"{A} against a level / measurement in {B}", "ops": ops_mixed(m, m1 * A, m2 * B, B)},
+                      {"shape": "unlinked", "determined": False, "label": f"{B} against a level / measurement in {A3}", "ops": ops_mixed(m, m2 * B, m1 * A3, A3)}]
         return {"pairs": pairs}
     if g == "chain":
         from ..world import World
